@@ -21,7 +21,8 @@ from .. import tables_c20 as R
 
 PROPERTY = "C20"
 RULE = ("sweep: for each of the 118 elements (plus the neutron slot of the crystal-structure list) and each table "
-        "(public; private table initialised after the public one) the served covalent radius + uncertainty, crystal "
+        "(public; private table initialised after the public one; and, in a fresh process, a private table whose "
+        "groups are initialised BEFORE the public table touched them, followed by the public table) the served covalent radius + uncertainty, crystal "
         "structure, K_alpha/K_beta1, magnetic_ff dict (charges, which of j0/j2/j4/j6/J exist, the 7 coefficients, M, "
         "the same object through the ion) and, for the 211 Waasmaier-Kirfel labels, getCMformula(label).a/.b/.c/.symbol "
         "are compared with the entry an independent reader finds under that element's symbol in the embedded text "
@@ -63,10 +64,18 @@ ORDERS = ["j0", "j2", "j4", "j6", "J"]
 _E = {}
 
 
+_ORDER = ["public-first"]
+
+
 def env():
-    """Oracle tables, library tables (public touched first, then the private table initialised)."""
+    """Oracle tables, library tables.  Order "public-first" (default): the public table touches every group,
+    then the private table is initialised.  Order "private-first": the private table's groups are initialised
+    in a process where the public table has not touched them yet (the public table must still serve its
+    entries afterwards)."""
     if _E:
         return _E
+    if _ORDER[0] == "private-first":
+        return _env_private_first()
     import periodictable
     from periodictable import core, mass, density
     pkg = R.pkg_dir()
@@ -230,7 +239,27 @@ def check_magnetic(T, which, sym):
 GROUPS = {"radius": check_radius, "crystal": check_crystal, "lines": check_lines, "magnetic": check_magnetic}
 
 
-def task_tables(ctx, which):
+def _env_private_first():
+    import periodictable
+    from periodictable import core, mass, density
+    from periodictable import covalent_radius, crystal_structure, xsf, magnetic_ff
+    pkg = R.pkg_dir()
+    _E["oracle"] = {"cordero": R.cordero(pkg), "crystal": R.crystal(pkg), "spectral": R.spectral(pkg),
+                    "magnetic": R.magnetic(pkg), "cm": R.waaskirf(pkg)}
+    T = core.PeriodicTable("c20-private")
+    mass.init(T)
+    density.init(T)
+    magnetic_ff.init(T)
+    xsf.init(T)
+    xsf.init_spectral_lines(T)
+    crystal_structure.init(T)
+    covalent_radius.init(T)
+    _E["tables"] = {"public": periodictable.elements, "private": T}
+    return _E
+
+
+def task_tables(ctx, which, order="public-first"):
+    _ORDER[0] = order
     E = env()
     T = E["tables"][which]
     ctx.extra["entries"] = dict((k, len(v)) for k, v in E["oracle"].items())
@@ -242,9 +271,9 @@ def task_tables(ctx, which):
                 continue        # hard-coded 0.20 for the neutron: no table row, not judged
             ora = E["oracle"][{"radius": "cordero", "crystal": "crystal", "lines": "spectral", "magnetic": "magnetic"}[g]]
             has = ora.get(sym) is not None
-            ctx.case((which, g, sym), True, {"table": which, "group": g, "element": sym},
-                     ["%s:%s" % (g, "entry" if has else "no-entry"), "table:" + which])
-            case = {"kind": "element", "table": which, "group": g, "element": sym}
+            ctx.case((which, order, g, sym), True, {"table": which, "order": order, "group": g, "element": sym},
+                     ["%s:%s" % (g, "entry" if has else "no-entry"), "table:" + which, "order:" + order])
+            case = {"kind": "element", "table": which, "group": g, "element": sym, "order": order}
             try:
                 for b, m in fn(T, which, sym):
                     ctx.violation(b, m, case)
@@ -642,6 +671,8 @@ def task_q(ctx, n):
 def tasks(tier):
     out = [("tables-public", task_tables, dict(which="public")),
            ("tables-private", task_tables, dict(which="private")),
+           ("tables-public-after-private-init", task_tables, dict(which="public", order="private-first")),
+           ("tables-private-initialised-first", task_tables, dict(which="private", order="private-first")),
            ("cromer-mann", task_cm, {})]
     if tier == "quick":
         out += [("q-%d" % k, task_q, dict(n=3500)) for k in range(5)]
@@ -651,6 +682,7 @@ def tasks(tier):
 
 
 def replay(ctx, case):
+    _ORDER[0] = case.get("order", "public-first")
     E = env()
     kind = case["kind"]
     if kind == "element":
